@@ -687,6 +687,7 @@ def check(ck: Check) -> None:
                     "translatable); on the implementation it is tested after every real call")
     ck.notes.append("stream 'float-tolerance' and the float part of the formula oracle are tests with tolerance "
                     f"{TOL}, not exact correspondence")
+    ck.gen_begin()   # lean/Gen is shared: held until the end of ck.lean
     m = meta(ck)
     for f in m["failures"]:
         ck.proof_failures.append("proof obligation not regenerable (translator rejected the kernel): " + f)
